@@ -73,11 +73,8 @@ Fixpoint take_digits (l : list N) (acc cnt : Z) : Z * Z * list N :=
 (* The grammar strconv.ParseFloat accepts over the alphabet {0-9 . e -}:
      [-] (digits ['.' digits] | '.' digits) [e [-] digits]
    with at least one mantissa digit and at least one exponent digit. *)
-Definition S_real_parse (cs : list N) : option decimal :=
-  let '(neg, l0) := match cs with
-                    | c :: r => if (c =? ch_minus)%N then (true, r) else (false, cs)
-                    | [] => (false, [])
-                    end in
+(* mantissa, number of fraction digits, exponent — after the sign *)
+Definition S_real_body (l0 : list N) : option (Z * Z * Z) :=
   let '(m1, n1, l1) := take_digits l0 0 0 in
   let '(m2, n2, l2) := match l1 with
                        | c :: r => if (c =? ch_dot)%N then take_digits r m1 0 else (m1, 0, l1)
@@ -85,7 +82,7 @@ Definition S_real_parse (cs : list N) : option decimal :=
                        end in
   if (n1 + n2 =? 0) then None else
   match l2 with
-  | [] => Some {| d_neg := neg; d_mant := m2; d_nfrac := n2; d_exp := 0 |}
+  | [] => Some (m2, n2, 0)
   | c :: r =>
     if (c =? ch_e)%N then
       let '(eneg, l3) := match r with
@@ -95,10 +92,20 @@ Definition S_real_parse (cs : list N) : option decimal :=
       let '(e, ne, l4) := take_digits l3 0 0 in
       if (ne =? 0) then None else
       match l4 with
-      | [] => Some {| d_neg := neg; d_mant := m2; d_nfrac := n2; d_exp := if eneg then - e else e |}
+      | [] => Some (m2, n2, if eneg then - e else e)
       | _ :: _ => None
       end
     else None
+  end.
+
+Definition S_real_parse (cs : list N) : option decimal :=
+  let '(neg, l0) := match cs with
+                    | c :: r => if (c =? ch_minus)%N then (true, r) else (false, cs)
+                    | [] => (false, [])
+                    end in
+  match S_real_body l0 with
+  | Some (m, n, e) => Some {| d_neg := neg; d_mant := m; d_nfrac := n; d_exp := e |}
+  | None => None
   end.
 
 (* number of decimal digits of a non-negative integer (0 for 0) *)
@@ -271,7 +278,7 @@ Fixpoint itoa_fuel (fuel : nat) (x : Z) (acc : list N) : list N :=
   | O => acc
   | S f => if x <=? 0 then acc else itoa_fuel f (x / 10) (Z.to_N (x mod 10) :: acc)
   end.
-Definition itoa (x : Z) : list N := itoa_fuel (S (Z.to_nat (Z.log2 x))) x [].
+Definition itoa (x : Z) : list N := itoa_fuel (S (Z.to_nat x)) x [].
 
 (* pack nibbles two per byte; a final 0xf (odd count) or 0xff (even count) *)
 Fixpoint pack_nibbles (l : list N) : list N :=
